@@ -36,6 +36,7 @@ ASSUMPTIONS = [
     'documents contradict each other about undefined symbols)',
     'lines inside unselected branches are syntactically valid (they are still parsed by the tool)',
     'an included file is treated as pasted text: open conditionals and the mute depth continue across the boundary',
+    'an #unmute/#emit while nothing is muted has no effect: the mute depth never goes below zero (pinned from the tree, no document states it)',
 ]
 BUDGET = {'quick': 1600, 'thorough': 60000}      # machines; each evaluates several prefixes
 LEVEL_TEXT = ('Exploration of directive histories with a stateful generator: the guarantee quantifies over every '
